@@ -91,15 +91,16 @@ CHECKS["C03"] = dict(
     design="§6 C03")
 
 CHECKS["C02"] = dict(
-    technique="Coq proofs of the invariances (children swap, name-keyed sequence lookup under any permutation, column permutation/merging, tip states vs partials, and re-rooting: every root placement reachable by any number of root moves, for any state count and any reversible semigroup family) on the C01 model + pairs of equivalent JSON specifications on the implementation and against the model",
+    technique="Coq proofs of the invariances (children swap, any permutation of the taxa list, name-keyed sequence lookup under any permutation, column permutation/merging, tip states vs partials, and re-rooting: every root placement reachable by any number of root moves, for any state count and any reversible semigroup family) on the C01 model + pairs of equivalent JSON specifications on the implementation and against the model",
     text="Theorems C02_swap_children / C02_perm_sequences / C02_perm_columns / C02_merge_columns / "
          "C02_states_vs_partials(_missing), the pulley identity C02_reroot_one_step and C02_reroot_any_branch / "
          "C02_reroot_along_any_path (prop/C02.v): for every tree carrying its tip vectors and branch lengths, every state "
          "count and every family P(t) of S x S matrices with detailed balance and P(a+b) = P(a)P(b), all rootings related by "
          "any number of moves of the root (exchange the root children, slide along the root edge, cross the node below onto "
-         "either grandchild branch) have the same site likelihood. Invariance under permutation of the taxa list (leaf "
-         "indices and the vectors indexed by them move together) is not formalised: it is decided by pairs of equivalent "
-         "specifications (data keyed by taxon name / clade / bipartition, realised twice: permuted taxa, permuted sequences, "
+         "either grandchild branch) have the same site likelihood. C02_perm_taxa(_amino_acids): ANY permutation of the taxa list "
+         "(leaf indices, row order of the alignment, compressed patterns and the node-indexed matrix tables all move) gives "
+         "the same log-likelihood, every tree, any number of categories, every tip mode. All of it is also decided by pairs "
+         "of equivalent specifications (data keyed by taxon name / clade / bipartition, realised twice: permuted taxa, permuted sequences, "
          "swapped children, permuted / merged columns, tip states vs partials, root moved to a random branch, the same "
          "unrooted tree with its lengths written in the newick string with the root edge split anywhere or a trifurcating "
          "root) on the implementation (|A-B| <= 1e-9 rel) with every specification also checked against the interval run of "
